@@ -74,7 +74,7 @@ theorem winding_cons {r c : Tri} (hr : TriND r) (hc : TriND c) {k : Surface.HE} 
     refine ⟨swap13 c, winding_flip u v w x huv huw hvw hux' hvx' r c hr' hc', Or.inr rfl, u, v, dir_of_rots hr', ?_⟩
     exact (mem_dirs_swap13 c v u).mpr (dir_of_rots hc')
   · obtain ⟨rfl, rfl⟩ := Prod.mk.inj e
-    exact ⟨c, winding_keep v' u' w x (fun e => huv' e.symm) huw hvw hvx' hux' r c hr' hc', Or.inl rfl, v', u',
+    exact ⟨c, winding_keep u v w x huv huw hvw hvx' hux' r c hr' hc', Or.inl rfl, u, v,
       dir_of_rots hr', dir_of_rots hc'⟩
 
 /-! ### reversing a face keeps its edges, its nodes and its non-degeneracy -/
@@ -85,7 +85,7 @@ theorem keys_swap13 (t : Tri) : ((keys (swap13 t) : List Surface.HE) : Multiset 
   rw [normHE_comm c b, normHE_comm b a, normHE_comm a c]
   apply Quotient.sound
   show List.Perm _ _
-  exact (List.Perm.swap _ _ _).trans ((List.Perm.swap _ _ _).cons _ |>.trans (List.Perm.swap _ _ _)) |>.symm |>.symm
+  exact List.Perm.swap _ _ _
 
 theorem keys_swap23 (t : Tri) : ((keys (swap23 t) : List Surface.HE) : Multiset Surface.HE) = (keys t : Multiset Surface.HE) := by
   obtain ⟨a, b, c⟩ := t
@@ -93,7 +93,7 @@ theorem keys_swap23 (t : Tri) : ((keys (swap23 t) : List Surface.HE) : Multiset 
   rw [normHE_comm a c, normHE_comm c b, normHE_comm b a]
   apply Quotient.sound
   show List.Perm _ _
-  exact ((List.Perm.swap _ _ _).cons _).trans (List.Perm.swap _ _ _) |>.trans ((List.Perm.swap _ _ _).cons _)
+  exact List.reverse_perm [_, _, _]
 
 theorem mem_keys_swap13 {t : Tri} {k : Surface.HE} : k ∈ keys (swap13 t) ↔ k ∈ keys t := by
   have := keys_swap13 t
@@ -146,7 +146,8 @@ theorem sim_verts {t' t : Tri} (h : Sim t' t) (x : Nat) :
   rcases h with rfl | rfl | rfl | rfl <;> simp only [swap13, swap23] <;> tauto
 
 /-- face by face the same triangles up to reversal -/
-def Rew (T' T : List Tri) : Prop := T'.length = T.length ∧ ∀ f t, T[f]? = some t → ∃ t', T'[f]? = some t' ∧ Sim t' t
+def Rew (T' T : List Tri) : Prop :=
+  T'.length = T.length ∧ ∀ (f : Nat) (t : Tri), T[f]? = some t → ∃ t', T'[f]? = some t' ∧ Sim t' t
 
 theorem rew_facts : ∀ (T T' : List Tri), Rew T' T →
     (Surface.heM T').map Surface.normHE = (Surface.heM T).map Surface.normHE ∧ Surface.vertsF T' = Surface.vertsF T ∧
@@ -189,7 +190,8 @@ theorem rew_chi {T T' : List Tri} (h : Rew T' T) : Surface.chiZ T' = Surface.chi
   obtain ⟨h1, h2, _⟩ := rew_facts T T' h
   have he : Surface.edgesF T' = Surface.edgesF T := by
     ext k; rw [mem_edgesF', mem_edgesF', h1]
-  unfold Surface.chiZ; rw [h2, he, h.1]
+  have hl := h.1
+  unfold Surface.chiZ; rw [h2, he, hl]
 
 /-! ### the invariant of the flood fill -/
 
@@ -269,7 +271,6 @@ theorem floodStep_tree (T0 : List Tri) (hnd : Surface.NonDeg T0) (nb : Nat → N
           · rcases hfsim with rfl | rfl
             · exact Or.inr rfl
             · exact Or.inl rfl
-        simp only at hfr hff
         simp only [hfr, hff, hw] at h
         -- the three neighbours
         have e1 : (tf'.1, tf'.2.1) ∈ dirs tf' := by simp [dirs]
@@ -347,7 +348,6 @@ theorem floodStep_tree (T0 : List Tri) (hnd : Surface.NonDeg T0) (nb : Nat → N
           · have hfg : f ≠ g := fun e => hgf e.symm
             simp only [List.getElem?_set_ne hfg] at hg
             obtain ⟨t1, t2, tp, tf2, t3, t4, t5, t6⟩ := hI.tree g hg0 hg
-            simp only at t1 t3 t4
             have hpf : G.parent g ≠ f := by
               intro e; rw [e, hcf] at t1; cases t1
             simp only [Function.update_of_ne hgf, Function.update_of_ne hpf]
